@@ -420,6 +420,9 @@ func sizeLimit(v *opView) int {
 }
 
 func checkContent(h *History, vs []*opView) {
+	if h.RP.CloseAtUs > 0 {
+		return // responses cut short by closing the router are C18's business
+	}
 	firstSeen := map[string]bool{} // up/token/serial already delivered to some client
 	var ds []delivered
 	for _, v := range vs {
